@@ -200,6 +200,15 @@ class Extractor:
                 return mk(b, [self.ev(a, env, depth + 1) for a in args])
             if k == "mcall" and n["name"] in ("clone", "into", "to_owned"):
                 return self.ev(n["recv"], env, depth + 1)
+            if k == "mcall" and n["name"] == "map" and len(n["args"]) == 1 and ("Result" in (n.get("path") or "") or "Option" in (n.get("path") or "")):
+                # `check(x).map(|checked| (checked, 6))`: the closure applied to the (Ok / Some) value
+                cl = resolve(n["args"][0])
+                if cl.get("k") == "closure" and len(cl.get("params", [])) == 1:
+                    v_ = self.ev(n["recv"], env, depth + 1)
+                    env2 = dict(env)
+                    for _, i_ in pat_bindings(cl["params"][0]):
+                        env2[i_] = v_
+                    return self.ev(cl["body"], env2, depth + 1)
             if k == "mcall" and n["name"] == "build" and (callee(n) or "") == CTX + "::build":
                 cl = peel(n["args"][0])
                 if cl.get("k") == "closure":
@@ -263,6 +272,36 @@ class Extractor:
                     return self.ev(n["then"], env2, depth + 1)
                 if ov == ("none",) and "else" in n:
                     return self.ev(n["else"], env, depth + 1)
+        if k == "match" and self.spec is not None and any(("Option::Some" in (x.get("path") or "") or "Option::None" in (x.get("path") or "")) for arm in n["arms"] for x in pat_alts(arm["pat"])):
+            # `match lookup(op) { Some(x) => A, None => B }` with a lookup that is decided by the specialised subject
+            keep = getattr(self, "_keep_some", 0)
+            self._keep_some = 1
+            try:
+                ov = self.ev(n["scrut"], dict(env), depth + 1)
+            except Opaque:
+                ov = None
+            finally:
+                self._keep_some = keep
+            if isinstance(ov, tuple) and ov and ov[0] in ("some", "none"):
+                for arm in n["arms"]:
+                    for alt in pat_alts(arm["pat"]):
+                        while alt.get("k") in ("pref", "pderef"):
+                            alt = alt["pat"]
+                        if "guard" in arm:
+                            g_ = self.decide(arm["guard"])
+                            if g_ is None:
+                                raise Opaque(n, "guarded arm")
+                            if not g_:
+                                continue
+                        if alt.get("k") == "pvariant" and alt["path"].endswith("Option::Some") and ov[0] == "some" and len(alt["subs"]) == 1:
+                            env2 = dict(env)
+                            for _, i_ in pat_bindings(alt["subs"][0]):
+                                env2[i_] = ov[1]
+                            return self.ev(arm["body"], env2, depth + 1)
+                        if alt.get("k") in ("pvariant", "pconst", "ppath") and alt.get("path", "").endswith("Option::None") and ov[0] == "none":
+                            return self.ev(arm["body"], env, depth + 1)
+                        if alt.get("k") in ("pwild",):
+                            return self.ev(arm["body"], env, depth + 1)
         if k == "match" and self.spec is not None:
             v = None
             sc0 = peel(n["scrut"])
